@@ -101,6 +101,7 @@ class FakeSocket:
         self.connected = kind == 'in'
         self.connect_result = None  # None pending | True | OSError
         self.send_error = None  # OSError raised by the next send
+        self.send_blocked = 0  # this many next sends find the socket buffer full (EAGAIN)
         self.cut_after_tx = None  # once this many writes were recorded, every further write fails (connection lost)
         self._recv_waiter = None  # (future, buffer)
         self._connect_waiter = None
@@ -149,6 +150,9 @@ class FakeSocket:
         if self.send_error is not None:
             e, self.send_error = self.send_error, None
             raise e
+        if self.send_blocked > 0:
+            self.send_blocked -= 1
+            raise BlockingIOError(errno.EAGAIN, 'socket buffer full')
         self._record_tx(bytes(data))
         return len(data)
 
